@@ -408,6 +408,14 @@ func C15(e *Env) {
 		c15Helpers(e, sks)
 	}
 	c15Todo(e)
+	var tv []RegexVar
+	for _, v := range regexVars(e) {
+		if v.Rel == tokenRel {
+			tv = append(tv, v)
+		}
+	}
+	c11LanguagesOf(e, tv)
+	r.Rule("R11.2", "%todo(...)% is recognised as a function token for every argument text the documentation allows (the function-token and reference grammars equal their reference for all strings; shared with C11)", 2)
 	mergeLiteralRule(e, "mergeService", "Service")
 	r.Rule("R09.1", "a later file's `todo` (like every scalar attribute) overrides an earlier one: merge wiring of input.Service (shared with C09)", 11)
 	r.Rule("R09.1c", "behaviour classes of the merge combinators (shared with C09)", 4)
